@@ -25,12 +25,14 @@ ASSUMPTIONS = ['the Lua object is abstract in the theorems (its lexer/parser/ech
                'Python int() on the (\\d+) group and "%s" % int are modelled by the stdlib Decimal conversions']
 PARTIAL = ('C03_roundtrip / C03_rewrite_identical keep the Lua object abstract (sanity re-lex, non-empty last chunk, echo '
            'stability as hypotheses); C03_roundtrip_lexer instantiates it with the lexer model and echo writer and discharges '
-           'them (C03_roundtrip_lexer_full: also the sanity re-lex, under no_lone_cr_newline); left: the parser accepts what the '
+           'them (C03_roundtrip_lexer_full: also the sanity re-lex, under no_lone_cr_newline; C03_roundtrip_lexer_dialect: for '
+           'code lexed from a source of the reference dialect no side condition is left and the re-read cart is again such a '
+           'cart, re-written identically); left: the parser accepts what the '
            'lexer accepts (Lua.from_lines also parses) - observed by the monitor on every case, not proved')
 TRUSTED = ['hand-written matchers for HEADER_VERSION_RE / SECTION_DELIM_RE (sources pinned; compared with re exhaustively on short strings)',
            'gen/kernels_p8file.py: the statement sequence of P8Formatter.to_file and the dispatch of from_file as data']
 CLAIM = dict(
-    text=("Theorems C03_roundtrip, C03_rewrite_identical, C03_ended_flag, C03_roundtrip_lexer, C03_roundtrip_lexer_full (Coq, closed under the global context) about a model "
+    text=("Theorems C03_roundtrip, C03_rewrite_identical, C03_ended_flag, C03_roundtrip_lexer, C03_roundtrip_lexer_full, C03_roundtrip_lexer_dialect (Coq, closed under the global context) about a model "
           "of P8Formatter.to_file / _get_raw_data_from_p8_file / from_file whose writer statement sequence, section dispatch "
           "and header strings are regenerated from p8.py on every run: for every cart (any bytes in the five regions, any label "
           "or none, any version >= 0, any echoed Lua text without a __section__-like line) the file is written, splits back into "
@@ -39,7 +41,7 @@ CLAIM = dict(
           "identical file. Built on the C15 (P8SCII/UTF-8) and C16 (per-section codecs) theorems. PARTIAL in one respect: the "
           "Lua object is abstract in the theorems - that the sanity re-lex succeeds, that the echo writer's last chunk is not "
           "empty, and echo_stable (the re-read object echoes the text it was lexed from) are explicit hypotheses owed by the "
-          "lexer stack (C06/C07); they are observed, not proved, in the abstract theorems; C03_roundtrip_lexer instantiates the Lua object with the lexer model and echo writer of C06/C07 and discharges them from Proofs/EchoStable.v (echo idempotence, also with the final newline supplied; no echoed line is empty), and C03_roundtrip_lexer_full also discharges the writer's sanity re-lex (for Lua objects without a lone-CR newline token, i.e. every source of the reference dialect), leaving the parser's acceptance (Lua.from_lines also parses) as the one thing observed rather than proved. Tie: model vs real to_file bytes and from_file results "
+          "lexer stack (C06/C07); they are observed, not proved, in the abstract theorems; C03_roundtrip_lexer instantiates the Lua object with the lexer model and echo writer of C06/C07 and discharges them from Proofs/EchoStable.v (echo idempotence, also with the final newline supplied; no echoed line is empty), and C03_roundtrip_lexer_full also discharges the writer's sanity re-lex (for Lua objects without a lone-CR newline token), C03_roundtrip_lexer_dialect states it for carts whose code was lexed from a byte text of the reference dialect (written, read back, re-written identically, and the re-read cart is again lexed from a text of the dialect - by C06_relex_reference - so the trip iterates) with no lexer-side hypothesis, leaving the parser's acceptance (Lua.from_lines also parses) as the one thing observed rather than proved. Tie: model vs real to_file bytes and from_file results "
           "(regions, label, version, the lines handed to the lexer, exceptions on malformed files), the two header regex "
           "matchers vs re exhaustively on short strings, and holds_C03 (extracted from Spec/P8FileSpec.v) on the "
           "implementation's own cart -> file -> cart' -> file'."),
